@@ -3,6 +3,7 @@
    pack_into_passes (recorded at build_pass_links, before the compiler's own assertion) and, when the
    compilation got that far, the way extract_subgraph cut it into NPU runs:
      {t, pl: [placement per pass], na: [npu-able per pass], prod: [[producer passes]...],
+      esc: [[tensor ids produced by the pass and used outside it]...], decl: [[tensor ids in ps.outputs]...],
       has_runs, runs: [[passes]...], cseq: [pass | -run]}
    passes are numbered 1..m in list order.  The property predicates are the ones model checked in
    Partition.tla.  `drift` collects disagreements between the transcription of extract_subgraph
@@ -22,8 +23,12 @@ M(e) == Len(e.pl)
 Lst(e) == [p \in 1..M(e) |-> p]
 ProdF(e) == [i \in 1..M(e) |-> Rng(e.prod[i])]
 
+EscF(e) == [i \in 1..M(e) |-> Rng(e.esc[i])]
+DeclF(e) == [i \in 1..M(e) |-> Rng(e.decl[i])]
+
 Failures(e) ==
       (IF ~P!TopoOrderOf(Lst(e), ProdF(e)) THEN {"TopoOrder"} ELSE {})
+ \cup (IF ~P!OutputsDeclaredOf(EscF(e), DeclF(e)) THEN {"OutputsDeclared"} ELSE {})
  \cup (IF e.has_runs /\ ~P!RunsWellFormedOf(Lst(e), e.runs, e.pl, e.na) THEN {"RunsWellFormed"} ELSE {})
  \cup (IF e.has_runs /\ ~P!RunsMaximalOf(Lst(e), e.runs, e.pl, e.na) THEN {"RunsAreMaximal"} ELSE {})
  \cup (IF e.has_runs /\ ~P!CallAtRunStartOf(Lst(e), e.runs, e.cseq) THEN {"CallOpAtRunStart"} ELSE {})
